@@ -3,7 +3,10 @@
 Oracle: the harness keeps every table as a header (list of str) plus a list of
 row lists of plain Python values and re-implements each relational operation
 on that representation (stable multi-pass ``list.sort``, list comprehensions,
-``collections.Counter``, nested-loop joins, ``zip``).  Real tables are observed
+``collections.Counter``, nested-loop joins, ``zip``).  The same operations are
+also asked of the table built with ``index_name=`` (model: the index column is
+reported first; what is documented about the result's index is asserted, see
+ASSUMPTIONS).  Real tables are observed
 through ``header``, ``shape``, ``columns[c].tolist()``, ``to_list()`` and
 ``array``.  Round trips write a real file and read it back with
 ``load_table`` / ``load_delimited``; expectations are stated on cell text and
@@ -422,9 +425,20 @@ def _clause(tab, a, b, c):
     return ci, op, const
 
 
-def _pred_fn(clauses, joiner):
+def _pred_fn(clauses, joiner, tolerant=False):
+    """tolerant (callbacks handed to the library): values that cannot be compared with the constant (the
+    library passed another column's values) count as False instead of raising inside harness code"""
+
+    def one(op, a, b):
+        if not tolerant:
+            return bool(CMP[op](a, b))
+        try:
+            return bool(CMP[op](a, b))
+        except TypeError:
+            return False
+
     def f(vals):
-        res = [bool(CMP[op](vals[i], const)) for i, (_, op, const) in enumerate(clauses)]
+        res = [one(op, vals[i], const) for i, (_, op, const) in enumerate(clauses)]
         return all(res) if joiner == "and" else any(res)
 
     return f
@@ -439,10 +453,11 @@ def build_predicate(tab, step):
             clauses.append(second)
     joiner = "and" if step["c"] % 2 else "or"
     names = [tab["header"][ci] for ci, _, _ in clauses]
-    pf = _pred_fn(clauses, joiner)
+    pf_model = _pred_fn(clauses, joiner)
+    pf = _pred_fn(clauses, joiner, tolerant=True)
 
     def model(row):
-        return pf([row[ci] for ci, _, _ in clauses])
+        return pf_model([row[ci] for ci, _, _ in clauses])
 
     form = step["b"] % 3
     if form == 2 and all(is_ident(n) for n in tab["header"]):
